@@ -1,7 +1,7 @@
 //! C11 — a feedback block computes the repeated, optionally skip-combined, layer sequence.
 //!
 //! The oracle is a model written from the statement, composed from the library's own public
-//! single-layer forwards and public tensor operations (those are checked by C02 / C15).
+//! single-layer forwards (checked by C02); the skip accumulations are computed by the harness.
 
 use crate::engine::*;
 use crate::fcmp::ulps32;
@@ -36,23 +36,28 @@ fn decode(tape: &[u32]) -> Case {
     Case { spec: NetSpec { input, layers }, wseed: t.raw(), xseed: t.raw() }
 }
 
-/// `acc(base; others)` with the library's public tensor operations.
+/// `acc(base; others)` computed element-wise by the harness itself (no library tensor arithmetic,
+/// so that a defect in a shared primitive cannot hide on both sides of the comparison).
 pub fn accumulate(acc: Acc, base: &Tensor, others: &[Tensor]) -> Tensor {
-    let mut r = base.clone();
     if others.is_empty() {
-        return r; // empty combination
+        return base.clone(); // empty combination
     }
-    match acc {
-        Acc::Add => others.iter().for_each(|o| r.add_inplace(o)),
-        Acc::Sub => others.iter().for_each(|o| r.sub_inplace(o)),
-        Acc::Mul => others.iter().for_each(|o| r.mul_inplace(o)),
-        Acc::Mean => {
-            let refs: Vec<&Tensor> = others.iter().collect();
-            r.mean_inplace(&refs);
-        }
-        Acc::Overwrite => r = others.last().unwrap().clone(),
+    let dims = tens::shape_dims(&base.shape);
+    let b = tens::flat(base);
+    let os: Vec<Vec<f32>> = others.iter().map(tens::flat).collect();
+    for o in &os {
+        assert_eq!(o.len(), b.len(), "accumulate: element counts differ");
     }
-    r
+    let out: Vec<f32> = (0..b.len())
+        .map(|i| match acc {
+            Acc::Add => os.iter().fold(b[i], |a, o| a + o[i]),
+            Acc::Sub => os.iter().fold(b[i], |a, o| a - o[i]),
+            Acc::Mul => os.iter().fold(b[i], |a, o| a * o[i]),
+            Acc::Mean => (b[i] + os.iter().fold(0.0f32, |a, o| a + o[i])) / (os.len() as f32 + 1.0),
+            Acc::Overwrite => os[os.len() - 1][i],
+        })
+        .collect();
+    tens::build(&dims, &out)
 }
 
 fn check(case: &Case, ev: &mut CaseEv) -> CheckResult {
@@ -162,7 +167,7 @@ impl Prop for C11 {
         t.pick(400_000, 30_000_000)
     }
     fn rule(&self) -> String {
-        "tape-decoded feedback block: flat (dense n -> n or n -> m -> n, n 1..6) or spatial (1-2 shape-preserving convolution / deconvolution layers on c 1-3 x h,w 1-5), loops 1..4, the four skip-flag combinations, the five accumulations, followed or not by a dense layer, tied distinct weights set through the hooks, random inputs. Oracle: r1 = F(x), ri = F(acc(r(i-1); x)) with input skips else F(r(i-1)); output acc(rL; r1..r(L-1)) with output skips else rL; flattened when a dense layer follows - composed from the library's own single-layer forwards and tensor operations; compared to predict within 2 ulp (bit-identical on the current tree). Non-trivial: loops >= 2 or a skip flag set. Distinct = full block specification.".into()
+        "tape-decoded feedback block: flat (dense n -> n or n -> m -> n, n 1..6) or spatial (1-2 shape-preserving convolution / deconvolution layers on c 1-3 x h,w 1-5), loops 1..4, the four skip-flag combinations, the five accumulations, followed or not by a dense layer, tied distinct weights set through the hooks, random inputs. Oracle: r1 = F(x), ri = F(acc(r(i-1); x)) with input skips else F(r(i-1)); output acc(rL; r1..r(L-1)) with output skips else rL; flattened when a dense layer follows - composed from the library's own single-layer forwards (the accumulations are computed by the harness element-wise); compared to predict within 2 ulp (bit-identical on the current tree). Non-trivial: loops >= 2 or a skip flag set. Distinct = full block specification.".into()
     }
     fn run_case(&self, tape: &[u32], ev: &mut CaseEv) -> CheckResult {
         check(&decode(tape), ev)
